@@ -86,9 +86,10 @@ Fixpoint mismatches_from (i : nat) (cs : list scase) : list (nat * list nat) :=
   end.
 
 (* ---------- classifiers of the known classes (the negated hypotheses of the C12 theorems) ---------- *)
-(* D6: a ModifyColumnNullable{nullable:false, fill_with:None} whose column has a default in the
-   baseline: the writer leaves fill_with empty (validate.rs:513-516), the reader rejects it
-   (validate.rs:420-423) *)
+(* the shape of the former finding D6 (repaired by /repo 446c8b4, kept for coverage statistics):
+   a ModifyColumnNullable{nullable:false, fill_with:None} whose column has a default in the
+   baseline: before the repair the writer left fill_with empty (validate.rs:513-516) and the reader
+   rejected it (validate.rs:420-423); now revision_fill's default_as_fill supplies the default *)
 Definition known_C12_nullable_default (np : plan) (baseline : schema) : bool :=
   existsb (fun a => match a with
                     | ModifyColumnNullable t c false None =>
